@@ -521,7 +521,7 @@ pub fn run_compiled_lim(cases: &[(&Case, &Bufs)], engine: Engine, family: Family
                 Some(r) => EngineEnd::Rec(r),
                 None => EngineEnd::Inconclusive("undecodable child record".into()),
             },
-            CaseEnd::Died(s) => EngineEnd::Signal(s),
+            CaseEnd::Died(s, _) => EngineEnd::Signal(s),
             CaseEnd::CpuTimeout => EngineEnd::Diverged,
             CaseEnd::Inconclusive(s) => EngineEnd::Inconclusive(s),
         })
